@@ -11,8 +11,8 @@ package main
 //       run through the ot.OT interface on the same sizes.
 
 import (
-	crand "crypto/rand"
 	"crypto/elliptic"
+	crand "crypto/rand"
 	"encoding/json"
 	"fmt"
 	"math/rand"
@@ -37,12 +37,12 @@ type otTap struct {
 	nlabels     int
 }
 
-func (t *otTap) SendByte(v byte) error    { return t.c.SendByte(v) }
-func (t *otTap) SendUint32(v int) error   { return t.c.SendUint32(v) }
-func (t *otTap) Flush() error             { return t.c.Flush() }
-func (t *otTap) ReceiveByte() (byte, error) { return t.c.ReceiveByte() }
-func (t *otTap) ReceiveUint32() (int, error) { return t.c.ReceiveUint32() }
-func (t *otTap) ReceiveData() ([]byte, error) { return t.c.ReceiveData() }
+func (t *otTap) SendByte(v byte) error                           { return t.c.SendByte(v) }
+func (t *otTap) SendUint32(v int) error                          { return t.c.SendUint32(v) }
+func (t *otTap) Flush() error                                    { return t.c.Flush() }
+func (t *otTap) ReceiveByte() (byte, error)                      { return t.c.ReceiveByte() }
+func (t *otTap) ReceiveUint32() (int, error)                     { return t.c.ReceiveUint32() }
+func (t *otTap) ReceiveData() ([]byte, error)                    { return t.c.ReceiveData() }
 func (t *otTap) ReceiveLabel(v *ot.Label, d *ot.LabelData) error { return t.c.ReceiveLabel(v, d) }
 func (t *otTap) SendData(v []byte) error {
 	t.mu.Lock()
